@@ -53,8 +53,10 @@ FWU(sid, inc) == [t |-> "WU", sid |-> sid, inc |-> inc]
 FPrio(sid, w, dep, excl) == [t |-> "PRIO", sid |-> sid, w |-> w, dep |-> dep, excl |-> excl]
 FAlt(sid, org, fld) == [t |-> "ALT", sid |-> sid, org |-> org, fld |-> fld]
 \* what an observer of the byte stream sees of a frame (header tokens -> decoded fields)
-PubFrame(f) == IF f.t = "HEADERS" THEN [t |-> "HEADERS", sid |-> f.sid, es |-> f.es, h |-> WireList(f.h, "b"), pr |-> f.pr]
-               ELSE IF f.t = "PP" THEN [t |-> "PP", sid |-> f.sid, pid |-> f.pid, h |-> WireList(f.h, "b")]
+\* (sizes: payload lengths of the HEADERS / PUSH_PROMISE frame and its CONTINUATION frames, when the step asks for them)
+WithSizes(f, g) == IF "sizes" \in DOMAIN f THEN g @@ [sizes |-> f.sizes] ELSE g
+PubFrame(f) == IF f.t = "HEADERS" THEN WithSizes(f, [t |-> "HEADERS", sid |-> f.sid, es |-> f.es, h |-> WireList(f.h, "b"), pr |-> f.pr])
+               ELSE IF f.t = "PP" THEN WithSizes(f, [t |-> "PP", sid |-> f.sid, pid |-> f.pid, h |-> WireList(f.h, "b")])
                ELSE f
 PubFrames(fs) == [i \in 1..Len(fs) |-> PubFrame(fs[i])]
 
@@ -123,6 +125,23 @@ EncInit == [size |-> 4096, rz |-> FALSE, ch |-> <<>>]
 EncSet(e, v) == [size |-> v, rz |-> v # e.size, ch |-> IF v # e.size THEN Append(e.ch, v) ELSE e.ch]
 EncTsu(e) == IF e.rz THEN e.ch ELSE <<>>
 EncAfter(e) == IF e.rz THEN [e EXCEPT !.rz = FALSE, !.ch = <<>>] ELSE e
+
+\* ---------------------------------------------------------------- a header block on the wire (H2Stream._build_headers_frames)
+\* The encoded block is cut into slices of max_outbound_frame_size octets (an empty block still takes one frame); the first
+\* slice goes into the HEADERS / PUSH_PROMISE frame, behind the priority fields (5 octets) or the promised id (4 octets),
+\* which are NOT counted when the block is cut: that frame can exceed the peer's limit (deviation header_frame_exceeds_limit).
+RECURSIVE Slices(_, _)
+Slices(bl, mof) == IF bl <= mof THEN <<bl>> ELSE <<mof>> \o Slices(bl - mof, mof)
+BlockSizes(bl, mof, extra) == LET sl == Slices(bl, mof) IN <<sl[1] + extra>> \o Tail(sl)
+\* the block length of this call's header list: logged by a recorded execution (c.bl), or known for a catalogue list that is
+\* the first block of a fresh encoder (c.bl0); -1: unknown (then no sizes are predicted)
+BlockLen(ep, c) == IF "bl" \in DOMAIN c THEN c.bl
+                   ELSE IF "bl0" \in DOMAIN c /\ ep.nblk = 0 /\ ep.enc = EncInit THEN c.bl0 ELSE -1
+WantSizes(c) == "sz" \in DOMAIN c /\ c.sz
+SizesOf(ep, c, extra) == IF WantSizes(c) /\ BlockLen(ep, c) >= 0 THEN BlockSizes(BlockLen(ep, c), ep.mof, extra) ELSE <<>>
+TooBig(sizes, mof) == \E i \in 1..Len(sizes) : sizes[i] > mof
+AddSizes(f, sizes) == IF sizes = <<>> THEN f ELSE f @@ [sizes |-> sizes]
+AssertionFailure == Exc("foreign:AssertionError", -1)
 
 \* ---------------------------------------------------------------- inbound window manager (h2.windows.WindowManager)
 WM(max) == [max |-> max, cur |-> max, bp |-> 0]
@@ -201,6 +220,7 @@ InitEp(role, cfg, maxClosed) ==
    streams |-> <<>>, sord |-> <<>>, closed |-> <<>>, hiIn |-> 0, hiOut |-> 0,
    ls |-> InitSettings(role = "c", TRUE), rs |-> InitSettings(role # "c", FALSE),
    ow |-> 65535, iw |-> WM(65535), mof |-> 16384, mif |-> 16384, hdrCap |-> 65536,
+   nblk |-> 0,                  \* header blocks this endpoint's HPACK encoder has been asked to write so far
    enc |-> EncInit,             \* HPACK encoder table-size state (follows the peer's HEADER_TABLE_SIZE)
    decSize |-> 4096,            \* table size the HPACK decoder currently uses (follows the size updates it decoded)
    decMax |-> 4096,             \* largest table size the HPACK decoder accepts (own acknowledged HEADER_TABLE_SIZE)
@@ -302,7 +322,7 @@ StreamSendHeaders(ep, c) ==
      ELSE LET p == Process(s, IF info THEN "SEND_INFORMATIONAL_HEADERS" ELSE "SEND_HEADERS") IN
      IF p.oc # "ok" THEN CR(PutR(ep, sid, p), ExcOf(p.oc))
      ELSE LET pipe == OutPipeline(c.h, KindOfSend(p.ev), ep.cfg.no, ep.cfg.vo)
-              e1 == Put(ep, sid, p.st)
+              e1 == [Put(ep, sid, p.st) EXCEPT !.nblk = @ + 1]
           \* (the encoder writes its pending table-size updates before it looks at the first field: a block that is
           \* then refused takes them with it)
           IN IF ~pipe.ok
@@ -316,11 +336,17 @@ StreamSendHeaders(ep, c) ==
                            e3 == IF bypass THEN Mark(Put(ep, sid, s3), "push_bypasses_stream_limit") ELSE Put(ep, sid, s3)
                            \* more than one pending table size: the encoder signals all of them, not the smallest and the last
                            e4 == [(IF Len(EncTsu(ep.enc)) > 1 THEN Mark(e3, "hpack_size_update_intermediate") ELSE e3)
-                                     EXCEPT !.enc = EncAfter(@)]
-                       IN IF ~PrioPresent(c.pr) THEN CR(Emit(e4, <<FHeaders(sid, c.es, pipe.h, <<>>, EncTsu(ep.enc))>>), OK)
+                                     EXCEPT !.enc = EncAfter(@), !.nblk = ep.nblk + 1]
+                           sz0 == SizesOf(ep, c, 0)
+                           sz5 == SizesOf(ep, c, 5)
+                       IN IF ~PrioPresent(c.pr) THEN CR(Emit(e4, <<AddSizes(FHeaders(sid, c.es, pipe.h, <<>>, EncTsu(ep.enc)), sz0)>>), OK)
                           ELSE IF ep.role = "s" THEN CR(Mark(Dirty(e4), "failed_send_partial_state"), Exc("RFC1122Error", -1))
                           ELSE IF PrioBad(sid, c.pr) THEN CR(Mark(Dirty(e4), "failed_send_partial_state"), PE)
-                          ELSE CR(Emit(e4, <<FHeaders(sid, c.es, pipe.h, PrioFields(c.pr), EncTsu(ep.enc))>>), OK)
+                          \* the frames are written to the output buffer and only then checked against the limit
+                          ELSE IF TooBig(sz5, ep.mof)
+                          THEN CR(Mark(Emit(e4, <<AddSizes(FHeaders(sid, c.es, pipe.h, PrioFields(c.pr), EncTsu(ep.enc)), sz5)>>),
+                                       "header_frame_exceeds_limit"), AssertionFailure)
+                          ELSE CR(Emit(e4, <<AddSizes(FHeaders(sid, c.es, pipe.h, PrioFields(c.pr), EncTsu(ep.enc)), sz5)>>), OK)
 
 SendHeaders(ep, c) ==
   LET isNew == ~Has(ep, c.sid)
@@ -391,12 +417,16 @@ PushStream(ep, c) ==
   ELSE LET p == Process(b.ep.streams[c.sid], "SEND_PUSH_PROMISE") IN
        IF p.oc # "ok" THEN CR(Mark(PutR(b.ep, c.sid, p), "failed_send_partial_state"), ExcOf(p.oc))
        ELSE LET pipe == OutPipeline(c.h, "push", ep.cfg.no, ep.cfg.vo)
-                e2 == Put(b.ep, c.sid, p.st)
+                e2 == [Put(b.ep, c.sid, p.st) EXCEPT !.nblk = @ + 1]
             IN IF ~pipe.ok THEN CR(Mark([(IF pipe.clean /\ ~ep.enc.rz THEN e2 ELSE Dirty(e2)) EXCEPT !.enc = EncAfter(@)], "failed_send_partial_state"), PE)
                ELSE LET q == Process(e2.streams[c.pid], "SEND_PUSH_PROMISE")
                         e5 == IF Len(EncTsu(ep.enc)) > 1 THEN Mark(Put(e2, c.pid, q.st), "hpack_size_update_intermediate")
                               ELSE Put(e2, c.pid, q.st)
-                    IN CR(Emit([e5 EXCEPT !.enc = EncAfter(@)], <<FPush(c.sid, c.pid, pipe.h, EncTsu(ep.enc))>>), OK)
+                        sz4 == SizesOf(ep, c, 4)
+                        fr == AddSizes(FPush(c.sid, c.pid, pipe.h, EncTsu(ep.enc)), sz4)
+                    IN IF TooBig(sz4, ep.mof)
+                       THEN CR(Mark(Emit([e5 EXCEPT !.enc = EncAfter(@)], <<fr>>), "header_frame_exceeds_limit"), AssertionFailure)
+                       ELSE CR(Emit([e5 EXCEPT !.enc = EncAfter(@)], <<fr>>), OK)
 
 Ping(ep, c) ==
   IF c.n # 8 THEN CR(ep, Exc("ValueError", -1))
@@ -601,8 +631,6 @@ RecvSettings(ep, f) ==
            asBuilt == [i \in 1..Len(a.ch) |-> <<a.ch[i][1], a.ch[i][3]>>]
            ht == ChangeOf(a.ch, 1)
            e0 == [c1.ep EXCEPT !.ls = a.S, !.lsF = IF @ = <<>> THEN @ ELSE Tail(@),
-                               !.lsH = IF @ = <<>> THEN @ ELSE Tail(@),
-                               !.penc = IF ep.lsH = <<>> \/ ep.lsH[1] = <<>> THEN @ ELSE EncSet(@, ep.lsH[1][1]),
                                !.decMax = IF ht = None THEN @ ELSE ht[1][3]]
            e1 == IF strict # asBuilt THEN Mark(e0, "ack_per_key") ELSE e0
            iws == ChangeOf(a.ch, 4)
@@ -724,7 +752,13 @@ Dispatch(ep0, f0) ==
   \* updates went into this block, whatever happens to the frame afterwards
   LET harness == f0.t \in {"HEADERS", "PP"} /\ "tsu" \notin DOMAIN f0
       f == IF harness THEN f0 @@ [tsu |-> IF f0.blk = "bad" THEN <<>> ELSE EncTsu(ep0.penc)] ELSE f0
-      ep == IF harness /\ f0.blk # "bad" THEN [ep0 EXCEPT !.penc = EncAfter(@)] ELSE ep0
+      \* a SETTINGS ACK: the peer that sent it has, by sending it, started to use the HEADER_TABLE_SIZE of the frame it
+      \* acknowledges (whatever this endpoint makes of the ACK)
+      ep == IF harness /\ f0.blk # "bad" THEN [ep0 EXCEPT !.penc = EncAfter(@)]
+            ELSE IF f0.t = "SET" /\ f0.ack
+            THEN [ep0 EXCEPT !.lsH = IF @ = <<>> THEN @ ELSE Tail(@),
+                             !.penc = IF ep0.lsH = <<>> \/ ep0.lsH[1] = <<>> THEN @ ELSE EncSet(@, ep0.lsH[1][1])]
+            ELSE ep0
   IN
   IF BadStreamZero(f) THEN RR(ep, PE, <<>>) ELSE
   CASE f.t = "HEADERS" -> RecvHeaders(ep, f)
@@ -843,7 +877,11 @@ HeaderBuffer(ep, g, gt) ==
 \* other frame of the scenarios is short; long header blocks travel in CONTINUATION frames).  The limit is copied
 \* from max_inbound_frame_size once per receive_data() call: a MAX_FRAME_SIZE change acknowledged by an earlier frame
 \* of the same call does not count yet (deviation frame_size_limit_snapshot where that changes the verdict).
-FrameLen(f) == IF f.t = "DATA" THEN f.n + (IF f.pad >= 0 THEN f.pad + 1 ELSE 0) ELSE 0
+\* (a header block whose frame sizes are known: its first frame; a later fragment over the limit leaves the parser in the
+\* middle of the block, which is not modelled: flag sat)
+FrameLen(f) == IF f.t = "DATA" THEN f.n + (IF f.pad >= 0 THEN f.pad + 1 ELSE 0)
+               ELSE IF "sizes" \in DOMAIN f THEN f.sizes[1] ELSE 0
+LaterFragmentTooLong(f, lim) == "sizes" \in DOMAIN f /\ \E i \in 2..Len(f.sizes) : f.sizes[i] > lim
 RECURSIVE ReceiveLoop(_, _, _, _)
 ReceiveLoop(ep, fs, evs, lim) ==
   IF fs = <<>> THEN [ep |-> [ep EXCEPT !.pend = <<>>], r |-> OK, ev |-> evs]
@@ -865,6 +903,7 @@ ReceiveLoop(ep, fs, evs, lim) ==
   THEN \* the 24 octets of a client preface read as a frame header announce a frame of 0x505249 octets; the length is only
        \* checked once a whole frame is buffered, so the parser waits for the rest and nothing behind it is ever looked at
        [ep |-> [ep EXCEPT !.pend = fs], r |-> OK, ev |-> evs]
+  ELSE IF LaterFragmentTooLong(fs[1], lim) THEN [ep |-> [ep EXCEPT !.sat = TRUE], r |-> OK, ev |-> evs]
   ELSE LET e0 == IF FrameLen(fs[1]) > ep.mif THEN Mark(ep, "frame_size_limit_snapshot") ELSE ep
            r == RecvFrame(e0, fs[1]) IN
        IF r.x.c = "ok" THEN ReceiveLoop(r.ep, Tail(fs), evs \o [i \in 1..Len(r.ev) |-> Shift(r.ev[i], Len(evs))], lim)
@@ -885,7 +924,8 @@ Unglue(fs) == IF fs = <<>> THEN <<>>
 Receive(ep, fs) ==
   IF ep.needPre /\ fs # <<>>
   THEN IF HasPre(fs[1]) THEN ReceiveLoop([ep EXCEPT !.needPre = FALSE], <<[fs[1] EXCEPT !.pre = FALSE]>> \o Unglue(Tail(fs)), <<>>, ep.mif)
-       ELSE [ep |-> ep, r |-> PE, ev |-> <<>>]
+       \* (the refused input is dropped: a header block in it never reaches the HPACK decoder)
+       ELSE [ep |-> [ep EXCEPT !.dl = @ \/ \E i \in 1..Len(fs) : fs[i].t \in {"HEADERS", "PP"}], r |-> PE, ev |-> <<>>]
   ELSE ReceiveLoop(ep, ep.pend \o Unglue(fs), <<>>, ep.mif)
 
 
